@@ -12,6 +12,8 @@ Spec  : the boolean `computable` and the textbook `*_spec` of Spec/Cost.v, extra
 import math
 from fractions import Fraction
 
+import numpy as np
+
 from harness import core
 from harness import mc_gen
 from harness import mc_fns
@@ -187,9 +189,18 @@ def run(ctx):
     else:
         frac = [c for c in cases if c.get("fractional")]
         cases = [c for c in cases if not c.get("fractional")]
+    if ctx.replay_case is None:
+        quarter = [mu.gen_case(ctx.rng, measure=SUPPORTED[i % len(SUPPORTED)], subpix=1, max_nd=16, small=True)
+                   for i in range(16 if quick else 240)]
+    else:
+        quarter = [dict(c, left=[[[int(round(4 * v)) for v in row] for row in b] for b in c["left"]],
+                        right=[[[int(round(4 * v)) for v in row] for row in b] for b in c["right"]])
+                   for c in cases if c.get("quarter_radiometry")]
+        cases = [c for c in cases if not c.get("quarter_radiometry")]
     for start in range(0, len(cases), 200):
         run_chunk(ctx, model, cases[start:start + 200])
     run_fractional(ctx, frac)
+    run_quarter_radiometry(ctx, model, quarter)
     ctx.stats["model_calls"] = model.calls
 
 
@@ -234,6 +245,55 @@ def run_fractional(ctx, cases):
                           f"{m} window {case['window']} subpix {case['subpix']}: cost at row {r} col {c} disparity "
                           f"{D / case['subpix']} is {f}; the pixel's interval is [{case['grids'][0][r][c]}, "
                           f"{case['grids'][1][r][c]}] and the property gives {None if e is None else str(e)}", case)
+
+
+def run_quarter_radiometry(ctx, model, cases):
+    """radiometry that is not whole (calibrated / normalised images): the real code runs on image/4 (multiples of
+    1/4, exact in float32), the model on the integer image; the measure is homogeneous, so a sad cost is the model's
+    /4, an ssd cost the model's /16, census and zncc costs are the model's, and the reported maximal cost is
+    int(d w^2) (sad), int(d^2 w^2) (ssd) of the largest radiometric difference d - i.e. the integer part of the
+    model's cmax /4, /16"""
+    wires = [wire(c) for c in cases]
+    mres = model.batch([(1, w) for w in wires])
+    for case, (hdr, mvol) in zip(cases, mres):
+        m = case["measure"]
+        scale = {"sad": 4, "ssd": 16, "census": 1, "zncc": 1}[m]
+        qcase = dict(case, left=[[[v / 4.0 for v in row] for row in b] for b in case["left"]],
+                     right=[[[v / 4.0 for v in row] for row in b] for b in case["right"]], quarter_radiometry=True)
+        ctx.count("quarter_radiometry_volumes")
+        cv, exc = mu.run_impl(qcase)
+        if exc is not None:
+            ctx.case(None)
+            ctx.violation("raises_quarter_radiometry", f"{m} window {case['window']}: {type(exc).__name__} ({str(exc)[:80]}) "
+                          f"on an image pair whose values are multiples of 1/4", qcase)
+            continue
+        ctx.traces += 1
+        vol = cv["cost_volume"].data
+        ctx.case(("quarter", m, case["window"], case["rows"], case["cols"], hash(str(case["left"]))))
+        want_cmax = hdr[4] // scale
+        if int(cv.attrs["cmax"]) != want_cmax:
+            ctx.violation(f"{m}_cmax_quarter_radiometry",
+                          f"{m} window {case['window']} on images with values k/4: reported cmax {cv.attrs['cmax']}, the "
+                          f"measure's maximal cost on these images has integer part {want_cmax} (largest cost present: "
+                          f"{float(np.nanmax(vol)) if np.isfinite(vol).any() else None})", qcase)
+        bad = None
+        rows, cols = case["rows"], case["cols"]
+        if len(mvol) == rows and (not rows or len(mvol[0]) == cols):
+            for r in range(rows):
+                for c in range(cols):
+                    for k in range(min(vol.shape[2], len(mvol[r][c]))):
+                        e = decode_cell(m, mvol[r][c][k])
+                        f = float(vol[r, c, k])
+                        if m in ("sad", "ssd") and e is not None:
+                            e = e / scale
+                        if bad is None and not cell_agrees(m, f, e):
+                            bad = (r, c, k, f, e)
+        ctx.count("costs_compared", int(vol.size))
+        if bad is not None:
+            r, c, k, f, e = bad
+            ctx.violation(f"{m}_value_quarter_radiometry",
+                          f"{m} window {case['window']} subpix 1 on images with values k/4: cost at row {r} col {c} "
+                          f"disparity index {k} is {f}, the measure gives {None if e is None else str(e)}", qcase)
 
 
 def run_chunk(ctx, model, cases):
